@@ -564,16 +564,16 @@ func (c *simCtx) oracleCmp(b *ssa.BinOp) (bool, bool) {
 		var lenv ssa.Value
 		var kv ssa.Value
 		op := b.Op
-		if _, ok := constInt(b.Y); ok {
+		if _, ok := c.intConstOf(b.Y); ok {
 			lenv, kv = b.X, b.Y
-		} else if _, ok := constInt(b.X); ok {
+		} else if _, ok := c.intConstOf(b.X); ok {
 			lenv, kv = b.Y, b.X
 			op = flipOp(op)
 		}
 		if lenv != nil {
 			if cc, ok := resolve(lenv).(*ssa.Call); ok && calleeIs(cc, "strings", "Count") && c.isSubject(cc.Call.Args[0]) {
 				if sep, ok := constString(cc.Call.Args[1]); ok && isSeparator(sep) {
-					k, _ := constInt(kv)
+					k, _ := c.intConstOf(kv)
 					if k == c.sc.N-1 {
 						switch op {
 						case token.NEQ:
@@ -585,7 +585,7 @@ func (c *simCtx) oracleCmp(b *ssa.BinOp) (bool, bool) {
 				}
 			}
 			if lc, ok := resolve(lenv).(*ssa.Call); ok && builtinName(lc) == "len" && c.splitOfSubject(lc.Call.Args[0]) {
-				k, _ := constInt(kv)
+				k, _ := c.intConstOf(kv)
 				if k == c.sc.N {
 					switch op {
 					case token.NEQ:
@@ -637,6 +637,28 @@ func (c *simCtx) oracleCmp(b *ssa.BinOp) (bool, bool) {
 		}
 	}
 	return false, false
+}
+
+// intConstOf: an integer constant, or an integer parameter whose value is a
+// constant at the call site of this activation.
+func (c *simCtx) intConstOf(v ssa.Value) (int64, bool) {
+	if k, ok := constInt(v); ok {
+		return k, true
+	}
+	if p, ok := resolve(v).(*ssa.Parameter); ok && c.sc.Consts != "" {
+		pre := fmt.Sprintf(",%d=#", paramIndex(c.f, p))
+		cs := "," + c.sc.Consts
+		if i := strings.Index(cs, pre); i >= 0 {
+			rest := cs[i+len(pre):]
+			if j := strings.Index(rest, ","); j >= 0 {
+				var n int64
+				if _, err := fmt.Sscanf(rest[:j], "%d", &n); err == nil {
+					return n, true
+				}
+			}
+		}
+	}
+	return 0, false
 }
 
 func isConst(v ssa.Value) bool { _, ok := resolve(v).(*ssa.Const); return ok }
@@ -699,6 +721,8 @@ func (c *simCtx) mapScenario(call *ssa.Call, g *ssa.Function) (scenario, bool) {
 		for i, a := range call.Call.Args {
 			if k, isK := resolve(a).(*ssa.Const); isK && k.Value != nil && (k.Value.String() == "true" || k.Value.String() == "false") {
 				out.Consts += fmt.Sprintf("%d=%s,", i, k.Value.String())
+			} else if n, isN := c.intConstOf(a); isN {
+				out.Consts += fmt.Sprintf("%d=#%d,", i, n)
 			}
 		}
 	}
